@@ -87,7 +87,7 @@ def theorem_names(path):
 EXTRA_MODULES = {pid: ["CachedProofs.Spec.Refine"] for pid in ("C02", "C03", "C04", "C09")}
 EXTRA_MODULES["C03"] = EXTRA_MODULES["C03"] + ["CachedProofs.LayerB.Entries"]       # C03 / C07 at action granularity
 EXTRA_MODULES["C07"] = ["CachedProofs.LayerB.Entries"]
-EXTRA_MODULES["C05"] = ["CachedProofs.LayerB.EvictId"]                                 # D11: the sweeper releases only the entry of the id it evicts
+EXTRA_MODULES["C05"] = ["CachedProofs.LayerB.EvictId", "CachedProofs.LayerB.Bijection"]                                 # D11: the sweeper releases only the entry of the id it evicts
 EXTRA_MODULES["C16"] = ["CachedProofs.LayerB.StatsTheorems"]                          # C16 at action granularity
 
 
